@@ -318,6 +318,70 @@ def shard(sh):
     return st.result([drv])
 
 
+# ---- indentation at every level
+def shard_indent(sh):
+    """cfg_print_indent(cfg, b) for every base level b up to a bound, and a chain of nested sections: every line of the output
+    stands exactly b levels deeper than in cfg_print / every body one level deeper than its section, at whatever depth"""
+    maxb, chain, deadline = sh
+    drv = get_driver('asan')
+    st = ShardStats('indentation levels')
+    sch = schema(frozenset())
+    drv.define_schema(sch.sid, sch.spec())
+    for stext in STATES:
+        lines = ['init A %s 0' % sch.sid, 'cb_quiet 1', 'parse_buf A ' + enc(stext), 'print A']
+        for b in range(1, maxb + 1):
+            lines.append('print A %d' % b)
+        c = Case(lines)
+        r = drv.run([c])[0]
+        st.evaluations += 1
+        st.transitions += maxb
+        st.validated += 1
+        script = 'schema %s %s\n%s' % (sch.sid, sch.spec(), c.script())
+        if r.status in ('crash', 'hang'):
+            st.violation('%s:%s' % (r.status, engine.sanitizer_summary(r.info)), script, '', engine.excerpt(r.info))
+            continue
+        texts = [dec(o.split(' ')[2]) for o in r.all('out ')]
+        u = indent_unit_len(texts[0])
+        base = [l for l in texts[0].split(b'\n')]
+        for b, t in enumerate(texts[1:], 1):
+            want = b'\n'.join((b' ' * (u * b) + l) if l.strip() else l for l in base)
+            got = t.replace(b'\t', b' ' * 8) if b'\t' in t and b'\t' not in texts[0] else t
+            st.outcome(str(b))
+            if got != want:
+                st.violation('print-indent-differs:level-%d' % b, script, want.decode('latin-1'), t.decode('latin-1'))
+                break
+        st.nontriv(stext)
+    # a chain of nested sections
+    inner = [Opt('int', 'z', '', 1)]
+    for k in range(chain, 0, -1):
+        inner = [Opt('int', 'v%d' % k, '', k), Opt('sec', 'c%d' % k, '', sub=inner)]
+    deep = Schema('PDEEP%d' % chain, inner)
+    drv.define_schema(deep.sid, deep.spec())
+    c = Case(['init A %s 0' % deep.sid, 'print A', 'print A 3'])
+    r = drv.run([c])[0]
+    st.evaluations += 1
+    st.transitions += chain
+    st.validated += 1
+    script = 'schema %s %s\n%s' % (deep.sid, deep.spec(), c.script())
+    if r.status in ('crash', 'hang'):
+        st.violation('%s:%s' % (r.status, engine.sanitizer_summary(r.info)), script, '', engine.excerpt(r.info))
+    else:
+        for t in [dec(o.split(' ')[2]) for o in r.all('out ')]:
+            got, badline = reduce_output(t)
+            exp = []
+            for k in range(1, chain + 1):
+                exp.append((k - 1, 'scalar', b'v%d' % k, ['%d' % k]))
+                exp.append((k - 1, 'open', b'c%d' % k, None))
+            exp.append((chain, 'scalar', b'z', ['1']))
+            for k in range(chain, 0, -1):
+                exp.append((k - 1, 'close', b'', None))
+            if got is None or len(got) != len(exp) or not all(same(e, g) for e, g in zip(exp, got)):
+                st.violation('print-structure:nesting-depth-%d' % chain, script, '\n'.join(map(str, exp)), t.decode('latin-1'))
+                break
+    st.samples.append({'base_levels': '1..%d' % maxb, 'nested_chain': chain})
+    return st.result([drv])
+
+
 def all_instances(store):
     """every section instance below the context: [(driver reference, SecState)] in declaration / instance order"""
     out = []
@@ -491,6 +555,8 @@ def main():
         pfsets += [frozenset(c) for c in itertools.combinations(PF_SLOTS, n)]
     shards = [([p], ck.deadline) for p in pfsets]
     engine.phase(ck, 'print-callback subsets x 4 states x 64 filter combinations', shard, shards, subsets=len(pfsets))
+    engine.phase(ck, 'cfg_print_indent at every base level 1..%d x 4 states; a chain of %d nested sections' % ((40, 24) if quick else (300, 120)), shard_indent,
+                 [((40, 24) if quick else (300, 120)) + (ck.deadline,)])
     # a filter choice per section instance, independently (later instances, both branches)
     cap = 7000 if quick else 1100000
     shards = []
